@@ -321,6 +321,20 @@ def run(ctx):
         worst = max(worst, w)
         for sig, what in V:
             ctx.violation(sig, what, {"task": list(t)})
+    # near-parabolic hyperbolic orbits just past pericentre, backward steps of a fraction of |a|^(3/2): the step has to terminate
+    # (each in a worker of its own with a short alarm: a solver that does not return must not hold up the rest)
+    P1 = 2 * math.pi
+    spec = [(1.0007875632854804, -1.0, 1.0, 2.102575105938506, 2.2714850308839303 / P1, -1, []),
+            (1.0007875632854804, -1.0, 1.0, 2.102575105938506, 2.2714850308839303 / P1, 1, []),
+            (1.0007875632854804, -1.0, 1.0, -2.102575105938506, 2.2714850308839303 / P1, 1, [])]
+    sres = pool.run_tasks(Case(rebound, not quick), spec, timeout=20, chunk=1)
+    for t, r in zip(spec, sres):
+        if r[0] != "ok":
+            ctx.violation("solver-%s:near-parabolic:%s" % (r[0], "backward" if t[5] < 0 else "forward"),
+                          "reb_whfast_kepler_solver does not return within 20 s (%s) for e=%r a=%r GM=%r f0=%r dt=%+.17g: %s" % (r[0], t[0], t[1], t[2], t[3], t[5] * t[4] * P1, str(r[1])[-200:]), {"task": list(t)})
+            continue
+        for sig, what in r[1][0]:
+            ctx.violation(sig, what, {"task": list(t)})
     # WHFast512 exists only in the AVX512 build: its part runs in a process of its own (mc/w512.py)
     from .. import w512
     n_w512 = w512.run(ctx, "C03")
